@@ -271,7 +271,16 @@ func runC20Scenario(c *c20Case, st *stats, idx int, scratch string) {
 		case "join":
 			n, via := node(op.Node), node(op.Via)
 			n.join = []string{via.addr()}
-			err := w.start(n, true)
+			var err error
+			if n.srv != nil {
+				// already running (an earlier handshake was refused): repeat the handshake
+				if w.members[n.id] {
+					continue
+				}
+				err = n.srv.JoinCluster()
+			} else {
+				err = w.start(n, true)
+			}
 			ev("join %d via %d: %v", n.id, via.id, err)
 			if err == nil {
 				// JoinCluster returned nil: the join is acknowledged
@@ -435,6 +444,10 @@ func c20Scripts(r *rng, n int, thorough bool) []c20Case {
 	add("join through a follower whose leader has just been cut off",
 		c20Op{Kind: "boot", Node: 1}, c20Op{Kind: "join", Node: 2, Via: 1}, c20Op{Kind: "join", Node: 3, Via: 1}, c20Op{Kind: "settle"},
 		c20Op{Kind: "cut", Node: 1}, c20Op{Kind: "join", Node: 4, Via: 2}, c20Op{Kind: "heal"})
+	add("a removed node joins again through a member that is cut off and has not yet applied the removal; the network heals and the handshake is repeated",
+		c20Op{Kind: "boot", Node: 1}, c20Op{Kind: "join", Node: 2, Via: 1}, c20Op{Kind: "join", Node: 3, Via: 1}, c20Op{Kind: "settle"},
+		c20Op{Kind: "cut", Node: 2}, c20Op{Kind: "remove", Node: 3}, c20Op{Kind: "join", Node: 3, Via: 2}, c20Op{Kind: "heal"}, c20Op{Kind: "settle"},
+		c20Op{Kind: "join", Node: 3, Via: 2}, c20Op{Kind: "settle"})
 	for len(cs) < n {
 		// random histories: 2..4 joins, optional removal, snapshot + restart of a random member, a late join
 		var ops []c20Op
